@@ -92,13 +92,23 @@ func (st *programState) runBalancesQuery() error {
 	// reset batch query
 	st.CurrentBalanceQuery = BalanceQuery{}
 
-	// add what was fetched to the cache, without forgetting (or overwriting)
-	// what previous queries already taught us
-	for account, accountBalances := range balances {
+	// add what was asked for to the cache, without forgetting (or overwriting)
+	// what previous queries already taught us. A store may answer with more than
+	// it was asked (the static store returns everything it has): what was not
+	// requested is ignored, so that the outcome does not depend on it
+	for account, queriedCurrencies := range filteredQuery {
+		accountBalances, ok := balances[account]
+		if !ok {
+			continue
+		}
 		cached := defaultMapGet(st.CachedBalances, account, func() AccountBalance {
 			return AccountBalance{}
 		})
-		for asset, amount := range accountBalances {
+		for _, asset := range queriedCurrencies {
+			amount, ok := accountBalances[asset]
+			if !ok || amount == nil {
+				continue
+			}
 			if _, ok := cached[asset]; !ok {
 				// copy: the cache is updated in place while statements run,
 				// the store's own numbers must not be
